@@ -573,7 +573,10 @@ func TestVerifC04Random(t *testing.T) {
 		used := 0 // window pages consumed by region mappings
 		nops := 25 + rng.Intn(40)
 		randFlags := func() []int {
-			fl := []int{0}
+			fl := []int{}
+			if rng.Intn(6) != 0 { // one request in six asks for a NON-present leaf
+				fl = append(fl, 0)
+			}
 			for _, b := range flagBits[1:] {
 				if rng.Intn(3) == 0 {
 					fl = append(fl, b)
